@@ -101,6 +101,21 @@ def nlaref_layouts():
     return out
 
 
+def nlaref_alt_layouts():
+    """another assembly with the SAME contig names and lengths: where the real reference has a recognisable motif the other
+    one has none and vice versa (used for the history 'a fragment on another reference first')"""
+    out = {}
+    plain = BG[:L]
+    for name, seq in nlaref_layouts().items():
+        if 'CATG' in seq.upper():
+            out[name] = plain
+        else:
+            pos = int(name.rsplit('_', 1)[1]) if '_' in name else SITE
+            pos = max(pos, 0)
+            out[name] = plain[:pos] + 'CATG' + plain[pos + 4:]
+    return out
+
+
 def nlaref_variants():
     v = [('exact', 'CATG'), ('lower', 'catg'), ('mixed', 'CAtg')]
     for i in range(4):
@@ -119,10 +134,11 @@ def setup():
     import pysam
     d = tempfile.mkdtemp(prefix='c09_', dir='/dev/shm' if os.path.isdir('/dev/shm') else None)
     lay = nlaref_layouts()
-    for fn, f in (('fwd.fa', lambda s: s), ('rc.fa', revcomp)):
+    alt = nlaref_alt_layouts()
+    for fn, f, src in (('fwd.fa', lambda s: s, lay), ('rc.fa', revcomp, lay), ('alt_fwd.fa', lambda s: s, alt), ('alt_rc.fa', revcomp, alt)):
         with open(os.path.join(d, fn), 'w') as h:
-            for name in sorted(lay):
-                h.write(f'>{name}\n{f(lay[name])}\n')
+            for name in sorted(src):
+                h.write(f'>{name}\n{f(src[name])}\n')
         pysam.faidx(os.path.join(d, fn))
     _REF['dir'], _REF['pid'] = d, os.getpid()
     atexit.register(_cleanup, d, os.getpid())
@@ -138,7 +154,8 @@ def ref_handle(strand):
     setup()
     key = (os.getpid(), strand)
     if key not in _REF['handles']:
-        _REF['handles'][key] = pysam.FastaFile(os.path.join(_REF['dir'], 'fwd.fa' if strand == 'forward' else 'rc.fa'))
+        fn = {'forward': 'fwd.fa', 'reverse': 'rc.fa', 'alt-forward': 'alt_fwd.fa', 'alt-reverse': 'alt_rc.fa'}[strand]
+        _REF['handles'][key] = pysam.FastaFile(os.path.join(_REF['dir'], fn))
     return _REF['handles'][key]
 
 
@@ -486,9 +503,11 @@ def nlaref_cases(tier):
             nlaref_variants(), (50, 0, 2), (0, 1, 2, 3, 4, -1), range(0, 5), ('none', 'proper'), (False, True)):
         if variant not in ('exact', 'lower', 'mixed') and (gap != 0 or clip != 0):
             continue
-        if variant == 'absent' and pos == 0:
-            yield {'kind': 'nlaref', 'variant': variant, 'pos': -4, 'gap': gap, 'clip': clip, 'r2': r2mode, 'invert_strand': inv}
-        yield {'kind': 'nlaref', 'variant': variant, 'pos': pos, 'gap': gap, 'clip': clip, 'r2': r2mode, 'invert_strand': inv}
+        for hist in (None, 'other-reference-first'):
+            extra = {'history': hist} if hist else {}
+            if variant == 'absent' and pos == 0:
+                yield dict({'kind': 'nlaref', 'variant': variant, 'pos': -4, 'gap': gap, 'clip': clip, 'r2': r2mode, 'invert_strand': inv}, **extra)
+            yield dict({'kind': 'nlaref', 'variant': variant, 'pos': pos, 'gap': gap, 'clip': clip, 'r2': r2mode, 'invert_strand': inv}, **extra)
 
 
 def nlaref_expect(case):
@@ -512,13 +531,21 @@ def run_nlaref(case):
     place = 'mid' if case['pos'] == 50 else 'contig-edge'      # -4, 0, 2: the scan window touches / leaves the contig
     for strand, specs in (('forward', fwd), ('reverse', mirror_pair(fwd))):
         reads = build_pair(specs, {}, contig=contig)
+        if case.get('history') == 'other-reference-first':
+            # the same process handled a fragment with the same coordinates on ANOTHER assembly (same contig names) before:
+            # nothing remembered about a reference may be keyed by contig name / coordinates alone
+            try:
+                NlaIIIFragment(build_pair(specs, {}, contig=contig), no_overhang=True, reference=ref_handle('alt-' + strand),
+                               invert_strand=case['invert_strand'])
+            except Exception:
+                pass
         try:
             frag = NlaIIIFragment(reads, no_overhang=True, reference=ref_handle(strand), invert_strand=case['invert_strand'])
             o = observe(frag)
         except Exception as ex:
             o = {'exception': f'constructor:{type(ex).__name__}:{ex}'}
         obs[strand] = o
-        pre = f'nlaref:{strand}:{vclass}:{place}'
+        pre = f'nlaref:{strand}:{vclass}:{place}' + (':after-a-fragment-on-another-reference' if case.get('history') else '')
         if 'exception' in o:
             out.append((exc_sig(pre, o), o))
             continue
